@@ -58,3 +58,51 @@ func CheckRepoRefs(db objects.Store, rs RefLister) string {
 	}
 	return ""
 }
+
+// CheckRepoStore is I-REPO over any objects.Store / ref store pair (used on reopened on-disk
+// repositories): every ref resolves to a readable commit; every stored commit decodes and has
+// its parents; every table whose object exists is fully usable; every branch points at a
+// commit whose table exists.
+func CheckRepoStore(db objects.Store, rs RefLister, B int) string {
+	if msg := CheckRepoRefs(db, rs); msg != "" {
+		return msg
+	}
+	coms, err := objects.GetAllCommitKeys(db)
+	if err != nil {
+		return "listing commits failed: " + err.Error()
+	}
+	for _, sum := range coms {
+		c, err := objects.GetCommit(db, sum)
+		if err != nil {
+			return fmt.Sprintf("stored commit %x does not decode: %v", sum, err)
+		}
+		for _, p := range c.Parents {
+			if !objects.CommitExist(db, p) {
+				return fmt.Sprintf("stored commit %x lacks its parent %x", sum, p)
+			}
+		}
+	}
+	tbls, err := objects.GetAllTableKeys(db)
+	if err != nil {
+		return "listing tables failed: " + err.Error()
+	}
+	for _, sum := range tbls {
+		if msg := CheckTable(db, sum, B, false); msg != "" {
+			return fmt.Sprintf("table %x is reported present but is not usable: %s", sum, msg)
+		}
+	}
+	m, err := rs.Filter([]string{"heads/"}, nil)
+	if err != nil {
+		return err.Error()
+	}
+	for name, sum := range m {
+		c, err := objects.GetCommit(db, sum)
+		if err != nil {
+			return fmt.Sprintf("branch %s unreadable: %v", name, err)
+		}
+		if !objects.TableExist(db, c.Table) {
+			return fmt.Sprintf("branch %s points at commit %x whose table %x is missing", name, sum, c.Table)
+		}
+	}
+	return ""
+}
